@@ -874,6 +874,8 @@ func c14Run(c *Ctx) {
 	c14RunStreams(emit)
 	// end-to-end layer: the same documents through driver.PProf, interactive sessions and the web handlers (c14_e2e.go)
 	c14RunE2E(c)
+	// Java heapz/contentionz through the driver: the drop/keep-frame tables are applied for real (c14_java.go)
+	c14RunJava(c)
 	n := c.Budget(120, 1500)
 	for k := 0; k < n; k++ {
 		// Go count
